@@ -285,3 +285,89 @@ Definition mon_all (c : chain_case) (obs : val) : list Z :=
   (mon_C01 c obs ++ mon_C05 c obs ++ mon_C16 c obs ++ mon_C02 c obs ++ mon_C03 c obs ++ mon_C04 c obs ++ mon_C06 c obs ++
    mon_C01x c obs ++ mon_C08 c obs ++ mon_C11 c obs ++ mon_C14 c obs ++ mon_C15 c obs ++ mon_C17 c obs ++ mon_C20 c obs)%list.
 
+(* ---------- monitors that look at a query and the operation that follows it ---------- *)
+Definition all_addrs (c : chain_case) : list string := (EM :: FC :: PM :: FM :: cc_addrs c)%list.
+Definition balance_of (c : chain_case) (s : val) (a d : string) : option Z :=
+  match find (fun ar => String.eqb (fst ar) a) (combine (all_addrs c) (vlist (snap_balances s))) with
+  | Some ar => match find (fun dj => String.eqb (fst dj) d) (combine (denoms_of_snapshot c s) (map vgetZ (vlist (snd ar)))) with
+               | Some dj => Some (snd dj) | None => None end
+  | None => None
+  end.
+Definition is_user (c : chain_case) (a : string) : bool := existsb (String.eqb a) (cc_addrs c).
+
+Fixpoint step_codes_q (chk : option (query * val) -> op -> bool -> val -> val -> val -> list Z) (last : option (query * val))
+         (ops : list cop) (steps : list val) (prev : val) : list Z :=
+  match ops, steps with
+  | COp o :: ro, st :: rs =>
+      let cur := vnth 1 st in
+      (chk last o (vgetB (vnth 0 st)) prev cur (vnth 2 st) ++ step_codes_q chk None ro rs cur)%list
+  | CQuery q :: ro, st :: rs => step_codes_q chk (Some (q, vnth 1 st)) ro rs prev
+  | _, _ => []
+  end.
+Definition mon_steps_q (chk : chain_case -> option (query * val) -> op -> bool -> val -> val -> val -> list Z) (c : chain_case) (obs : val) : list Z :=
+  match vlist obs with
+  | _ :: s0 :: steps => nodup Z.eq_dec (step_codes_q (chk c) None (cc_ops c) steps s0)
+  | _ => []
+  end.
+
+(* C12: a swap (route) executed right after its quote pays the receiver exactly the quoted amount *)
+Definition quoted_ok (ans : val) : option Z :=
+  match vlist ans with
+  | [VZ 1; VZ z] => Some z
+  | [VZ 1; VL (VZ z :: _)] => Some z
+  | _ => None
+  end.
+Definition last_out (ops : list swap_op) : string := match last (map Some ops) None with Some o => so_out o | None => "" end.
+Definition chk_C12 (c : chain_case) (last : option (query * val)) (o : op) (ok : bool) (prev cur reported : val) : list Z :=
+  if negb ok then [] else
+  match o, last with
+  | Tx sender target (WPm (PmSwap ask _ _ r pid)) [offer], Some (QSimulation qoffer qask qpid, ans) =>
+      let recv := match r with Some a => a | None => sender end in
+      if String.eqb target PM && String.eqb ask qask && String.eqb pid qpid && String.eqb (denom_of offer) (denom_of qoffer) &&
+         (amount_of offer =? amount_of qoffer) && is_user c recv && negb (String.eqb ask (denom_of offer)) then
+        match quoted_ok ans, balance_of c prev recv ask, balance_of c cur recv ask with
+        | Some q, Some b0, Some b1 =>
+            (* the receiver gets the quoted return, and the swap reports the quoted return, spread and fee amounts *)
+            if (b1 - b0 =? q) && val_eqb (VL [VZ 1; reported]) ans then [] else [12]
+        | _, _, _ => [12]      (* executed although the quote failed, or the balances are not observable *)
+        end
+      else []
+  | Tx sender target (WPm (PmRoute ops _ r _)) [offer], Some (QSimulateOps amount qops, ans) =>
+      let recv := match r with Some a => a | None => sender end in
+      let out := last_out ops in
+      if String.eqb target PM && (amount_of offer =? amount) && is_user c recv && negb (String.eqb out (denom_of offer)) &&
+         val_eqb (VL (map (fun x => VL [VS (so_in x); VS (so_out x); VS (so_pool x)]) ops))
+                 (VL (map (fun x => VL [VS (so_in x); VS (so_out x); VS (so_pool x)]) qops)) &&
+         (* each pool visited at most once *)
+         (Nat.eqb (List.length (nodup string_dec (map so_pool ops))) (List.length ops)) then
+        match quoted_ok ans, balance_of c prev recv out, balance_of c cur recv out with
+        | Some q, Some b0, Some b1 => if b1 - b0 =? q then [] else [12]
+        | _, _, _ => [12]
+        end
+      else []
+  | _, _ => []
+  end.
+Definition mon_C12 := mon_steps_q chk_C12.
+
+(* C09: an emergency withdrawal returns at least 10% and at most 100% of the position to its owner; a regular one all *)
+Definition chk_C09 (c : chain_case) (o : op) (ok : bool) (prev cur : val) : list Z :=
+  if negb ok then [] else
+  match o with
+  | Tx sender target (WFm (FmPosWithdraw id em)) _ =>
+      if negb (String.eqb target FM) || negb (is_user c sender) then [] else
+      match find (fun p => String.eqb (position_id p) id) (snap_positions prev) with
+      | Some p =>
+          let lp := fst (position_lp p) in let amt := snd (position_lp p) in
+          match balance_of c prev sender lp, balance_of c cur sender lp with
+          | Some b0, Some b1 =>
+              let got := b1 - b0 in
+              if (amt - amt * 9 / 10 <=? got) && (got <=? amt) &&
+                 (match em with Some true => true | _ => got =? amt end) then [] else [9]
+          | _, _ => []
+          end
+      | None => [9]
+      end
+  | _ => []
+  end.
+Definition mon_C09 := mon_steps chk_C09.
+Definition mon_everything (c : chain_case) (obs : val) : list Z := (mon_all c obs ++ mon_C09 c obs ++ mon_C12 c obs)%list.
